@@ -69,7 +69,7 @@ def mon_C03(h, ents, pend, raw):
         for a, b in zip(writes, wires):
             if b != "?" and a != b:
                 out.append(("wire-differs-from-issued-bytes", "c%d: bytes on the wire differ from the bytes issued" % cid))
-    if h["reqs"] is not None and h["name"] in ("sequential", "head/get pair", "close decision", "idle ticks"):
+    if h["reqs"] is not None and h["name"] in ("sequential", "head/get pair", "close decision", "idle ticks", "head then other"):
         es = pc.get(1, [])
         exp = b""
         for k, rq in enumerate(h["reqs"]):
@@ -127,6 +127,12 @@ def mon_C09(h, ents, pend, raw):
     for cid, es in pc.items():
         if "TRUNCATED-WRITE" in es:
             out.append(("shutdown-while-write-in-flight", "c%d: the socket was shut down while a response write was still pending" % cid))
+    if h["name"].startswith("expect chunked") and "perturbed" not in h["name"]:
+        es = pc.get(1, [])
+        closed_at = next((i for i, e in enumerate(es) if e in ("shutdown", "tls-shutdown")), None)
+        final_at = next((i for i, e in enumerate(es) if e.startswith("wire=485454502f312e312032")), None)
+        if closed_at is not None and (final_at is None or closed_at < final_at) and "UNDEFINED" not in raw:
+            out.append(("closed-before-the-final-response", "c1: the connection was shut down after the interim response, before the final response was written"))
     if h["reqs"] is not None and h["name"] in ("close decision", "sequential"):
         # segments of the log by event; the close decision is visible in the segment of the write completion
         segs = []
@@ -208,6 +214,12 @@ def mon_C11(h, ents, pend, raw):
         tail_after = ents[max(i for i, e in enumerate(ents) if e in ("[C]", "[K]")):]
         if pend != "-" and not any(e == "[A]" for e in tail_after):
             out.append(("operation-left-pending-after-close", "operations still pending after close/destroy: " + pend))
+    # nothing is accepted once the server has been closed or destroyed
+    if any(m in ("[C]", "[K]") for m in marks):
+        cut = min(i for i, e in enumerate(ents) if e in ("[C]", "[K]"))
+        late = [e for e in ents[cut:] if re.match(r"c\d+:(start|connected)$", e)]
+        if late:
+            out.append(("connection-accepted-after-close", "a connection was set up after the server had been closed: " + " ".join(late[:3])))
     # after close / destroy every connected connection has had its disconnected event
     if any(m in ("[C]", "[K]") for m in marks):
         pc = S.per_conn(ents)
@@ -256,6 +268,14 @@ def mon_C15(h, ents, pend, raw):
     if ents is None or not h["name"].startswith("expect"):
         return out
     es = S.per_conn(ents).get(1, [])
+    if h["name"].startswith("expect twice") or h["name"].startswith("expect then invalid"):
+        if "perturbed" in h["name"]:
+            return out
+        n100 = sum(1 for e in es if e.startswith("wire=485454502f312e312031303020"))
+        want = 3 if h["name"].startswith("expect twice") else 2
+        if n100 != want:
+            out.append(("no-interim-response-for-a-later-request", "%d interim responses on the wire for %d Expect requests on one connection" % (n100, want)))
+        return out
     wires = [unhex(e[5:]) for e in es if e.startswith("wire=") and e != "wire=?"]
     n100 = sum(1 for w in wires if w.startswith(b"HTTP/1.1 100 ") or w.startswith(b"HTTP/1.0 100 "))
     name = h["name"]
